@@ -40,7 +40,7 @@ def e2e_term(c):
                      for p in c.get("patches", [])])
     pre = g.lst(["(%s, %s)" % (g.lst([g.lst([fld(f) for f in r]) for r in h["csv"]]), g.lst([hx(l) for l in h["labels"]]))
                  for h in c.get("pre", [])])
-    return "mkE %s %s %s %s %s %s %s" % (pre, recs, hx(c["text"]), asis, post, gets, patches)
+    return "mkE %s %s %s %s %s %s %s %s" % (g.nat(c["nw"]), pre, recs, hx(c["text"]), asis, post, gets, patches)
 
 
 def run(ctx):
@@ -98,7 +98,9 @@ def run(ctx):
                 "canonical hex words, multi-word encodings, %%.3f texts, random strings over [0-9A-Fa-f:.+-Ee]); "
                 "(2) end to end through the REAL SummaryMarshaler and the REAL engine Mux (httptest, scenario fixture ValidTestScenario.toml, 13 actions): "
                 "summaries with real values/encodings of random action sets (steered towards d+Ed+, F, all-decimal encodings), the single-objective "
-                "shape (As-Is + Optimised), one summary per encoding class, synthetic rows with arbitrary text over [0-9A-F:] in the Actions column, "
+                "shape (As-Is + Optimised), one summary per encoding class, synthetic rows with arbitrary DECODABLE text over [0-9A-F:] in the Actions column "
+                "(leading zeros, bits beyond the actions, numeric / exponent / boolean look-alikes: expected 200 and the full round trip) and summaries with "
+                "ONE undecodable Actions text (wrong word count, empty word, word beyond 64 bits; also in the As-Is row: expected 400, a 200 is flagged), "
                 "summary FILES written by the real scenario.Saver driven as the Runner drives it (ONE saver, SetDecompressionModel once, one "
                 "FinishedAnnealing event per run with CompressedModel (Kirkpatrick family) or ModelArchive (Suppapitnarm family), RunNumber 1..3, "
                 "CSV/Summary into a private temp dir): every file of every run posted to a fresh engine, "
